@@ -181,7 +181,7 @@ func check(c Case) error {
 			hsrc := gen.Print(expandList(in.Stmts, macros), gen.PrintOptions{})
 			history = append(history, "eval("+val.StrSrc(src)+")")
 			rp, rh := p.Run("eval("+val.StrSrc(src)+")"), h.Run("eval("+val.StrSrc(hsrc)+")")
-			if sess.TimedOut(rp) || sess.TimedOut(rh) {
+			if sess.TimedOut(rp) || sess.TimedOut(rh) || sess.MemoryRefused(rp) || sess.MemoryRefused(rh) {
 				return nil
 			}
 			if rp.Out != rh.Out || rp.Echo != rh.Echo || rp.Failed() != rh.Failed() {
@@ -243,7 +243,7 @@ func check(c Case) error {
 		seen = append(seen, expanded{src, gotDump})
 		// (3) evaluation
 		rp, rh := p.Run(src), h.Run(hsrc)
-		if sess.TimedOut(rp) || sess.TimedOut(rh) {
+		if sess.TimedOut(rp) || sess.TimedOut(rh) || sess.MemoryRefused(rp) || sess.MemoryRefused(rh) {
 			return nil
 		}
 		if rp.Out != rh.Out || rp.Echo != rh.Echo || rp.Failed() != rh.Failed() {
